@@ -247,11 +247,12 @@ func (g *Gen) intLit() *Expr {
 }
 
 func (g *Gen) floatLit() *Expr {
-	return LitF([]float64{0, 0.5, 1.5, -0.75, 2, 0.125, 10, -3, 0.1, 2.5}[g.R.Intn(10)])
+	return LitF([]float64{0, 0.5, 1.5, -0.75, 2, 0.125, 10, -3, 0.1, 2.5, -0.5, -10, -1.5, 1, -1, -0.125}[g.R.Intn(16)])
 }
 
 func (g *Gen) strLit() *Expr {
-	return LitS([]string{"", "a", "ab", "k1", "x y", "q\"uote", "it's", "tab\there", "é✓", "back\\slash", "nl\nx", "caf\xe9", "\xff\x80z"}[g.R.Intn(13)])
+	return LitS([]string{"", "a", "ab", "k1", "x y", "q\"uote", "it's", "tab\there", "é✓", "back\\slash", "nl\nx", "caf\xe9", "\xff\x80z",
+		" \t ab \n", "\r\nk1\t", "\u00a0a\u3000", "  ", "\vab\f", "AbC", "aXbXa"}[g.R.Intn(20)])
 }
 
 // direct reports whether e can be passed as a method argument / assigned (not read via pointer).
@@ -312,7 +313,7 @@ func (g *Gen) Expr(ty Ty, d int) *Expr {
 				return CallE(tool(), "Cnt", TInt, reflect.Int64, g.arg(TInt, d-1))
 			}
 		case k < 9 && g.Strs:
-			fn := []string{"Len", "Count", "Index", "Compare"}[r.Intn(4)]
+			fn := []string{"Len", "Count", "Index", "Compare", "LastIndex"}[r.Intn(5)]
 			recv := g.recvStr(d - 1)
 			if fn == "Len" {
 				return CallE(recv, fn, TInt, reflect.Int)
@@ -371,11 +372,25 @@ func (g *Gen) Expr(ty Ty, d int) *Expr {
 			case 0:
 				return CallE(tool(), "Half", TFloat, reflect.Float64, g.arg(TFloat, d-1))
 			case 1:
-				return CallE(nil, "Abs", TFloat, reflect.Float64, g.arg(TFloat, d-1))
+				// the whole documented math library: one- and two-argument wrappers
+				if r.Intn(3) == 0 {
+					return CallE(nil, mathBinaryNames[r.Intn(len(mathBinaryNames))], TFloat, reflect.Float64, g.arg(TFloat, d-1), g.arg(TFloat, d-1))
+				}
+				return CallE(nil, mathUnaryNames[r.Intn(len(mathUnaryNames))], TFloat, reflect.Float64, g.arg(TFloat, d-1))
 			case 2:
-				return CallE(nil, "Max", TFloat, reflect.Float64, g.arg(TFloat, d-1), g.arg(TFloat, d-1), g.floatLit())
+				// variadic Max / Min with 1-4 arguments of either sign
+				n := 1 + r.Intn(4)
+				var args []*Expr
+				for i := 0; i < n; i++ {
+					if r.Intn(3) == 0 {
+						args = append(args, g.floatLit())
+					} else {
+						args = append(args, g.arg(TFloat, d-1))
+					}
+				}
+				return CallE(nil, []string{"Max", "Min"}[r.Intn(2)], TFloat, reflect.Float64, args...)
 			default:
-				return CallE(nil, "Floor", TFloat, reflect.Float64, g.arg(TFloat, d-1))
+				return CallE(nil, []string{"Floor", "Abs", "Ceil", "Round", "Trunc"}[r.Intn(5)], TFloat, reflect.Float64, g.arg(TFloat, d-1))
 			}
 		default:
 			return Bin("+", TFloat, g.Expr(TFloat, d-1), g.floatLit())
@@ -416,8 +431,14 @@ func (g *Gen) Expr(ty Ty, d int) *Expr {
 			}
 			return CallE(tool(), "Up", TStr, reflect.String, g.arg(TStr, d-1))
 		default:
-			fn := []string{"ToUpper", "ToLower", "Trim"}[r.Intn(3)]
-			return CallE(g.recvStr(d-1), fn, TStr, reflect.String)
+			switch fn := []string{"ToUpper", "ToLower", "Trim", "Trim", "Replace", "Repeat"}[r.Intn(6)]; fn {
+			case "Replace":
+				return CallE(g.recvStr(d-1), fn, TStr, reflect.String, g.Expr(TStr, 0), g.Expr(TStr, 0))
+			case "Repeat":
+				return CallE(g.recvStr(d-1), fn, TStr, reflect.String, LitI(int64(r.Intn(3))))
+			default:
+				return CallE(g.recvStr(d-1), fn, TStr, reflect.String)
+			}
 		}
 	case TTime:
 		if v, ok := g.pick(TTime, false); ok && r.Intn(3) != 0 {
@@ -709,6 +730,10 @@ func nStrVars(e *Expr) int {
 	e.Walk(func(x *Expr) {
 		if x.Op == "var" && x.Ty == TStr {
 			n++
+		}
+		// multiplicative growth: treated like a second variable (forces the clip)
+		if x.Op == "call" && (x.Fn == "Repeat" || x.Fn == "Replace") {
+			n += 2
 		}
 	})
 	return n
